@@ -183,7 +183,15 @@ def gen_reg(rng):
             p = rng.choice([0, 1, 2, 4, 8, 12, 16])
         faults.append(dict(k=kind, tgt=rng.randrange(ntgt) if rng.random() < 0.8 else 0, s=s, e=e, p=p, c=c,
                            pause=bool(e is not None and rng.random() < 0.5)))
-    return dict(kind=kind, ntgt=ntgt, cfg=cfg, faults=faults)
+    c = dict(kind=kind, ntgt=ntgt, cfg=cfg, faults=faults)
+    if kind == "lat" and rng.random() < 0.4:
+        # links whose base latency is a sampled (exponential) distribution: the probe reports the sample minus what
+        # the base distribution alone gives from the same generator state, i.e. the added latency (configured: 0)
+        c["exp"] = [rng.random() < 0.7 for _ in range(ntgt)]
+        for x in range(ntgt):
+            if c["exp"][x]:
+                cfg[str(x)] = 0
+    return c
 
 
 def impl_reg(c):
@@ -193,7 +201,9 @@ def impl_reg(c):
     from happysimulator.core.simulation import Simulation
     from happysimulator.core.temporal import Instant
     from happysimulator.distributions.constant import ConstantLatency
+    from happysimulator.distributions.exponential import ExponentialLatency
     from happysimulator.components.resource import Resource
+    import random as _random
     from happysimulator.faults import CrashNode, InjectLatency, InjectPacketLoss, PauseNode, ReduceCapacity
 
     class Node(Entity):
@@ -210,8 +220,11 @@ def impl_reg(c):
         ents = ents + ress
     elif kind != "crash":
         net = Network("net")
+        exp = c.get("exp") or [False] * n
+        bases = [ExponentialLatency(0.05) if (kind == "lat" and exp[x]) else
+                 ConstantLatency(c["cfg"][str(x)] / S if kind == "lat" else 0.25) for x in range(n)]
         for x in range(n):
-            lk = NetworkLink(f"l{x}", latency=ConstantLatency(c["cfg"][str(x)] / S if kind == "lat" else 0.25),
+            lk = NetworkLink(f"l{x}", latency=bases[x],
                              packet_loss_rate=(c["cfg"][str(x)] / 16 if kind == "loss" else 0.0))
             net.add_link(srcs[x], dsts[x], lk)
             links.append(lk)
@@ -244,6 +257,11 @@ def impl_reg(c):
                 b = 1 if getattr(srcs[x], "_crashed", False) else 0
                 if b:
                     v = -1000                     # bystander touched
+            elif kind == "lat" and exp[x]:
+                _random.seed(t + x)
+                got = links[x].latency.get_latency(Instant(t)).nanoseconds
+                _random.seed(t + x)
+                v = int(round((got - bases[x].get_latency(Instant(t)).nanoseconds) / 1000.0)) * 1000
             elif kind == "lat":
                 v = links[x].latency.get_latency(Instant(t)).nanoseconds
             elif kind == "capv":
@@ -949,6 +967,92 @@ def gen_qr(rng):
     return gen_crashwl(rng, queued=True)
 
 
+
+# --------------------------------------------------------------------------- crash target behind a network link (oracle only)
+def gen_netcrash(rng):
+    pool = gen_endpoints(rng, n_pool=4)
+    # one window, or two disjoint ones (overlapping windows on one target are the subject of the reg family)
+    pts = sorted(set(pool))
+    faults = []
+    for a, b in ([(pts[0], pts[1])] + ([(pts[2], pts[3])] if len(pts) >= 4 and rng.random() < 0.6 else [])):
+        faults.append(dict(k="crash", tgt=0, s=a, e=b, p=0, c=None, pause=bool(rng.random() < 0.5)))
+    lat = rng.choice([Q // 2, Q, 2 * Q, 3 * Q])
+    tmax = max(pool) + S
+    # send instants: a grid, plus instants placed so that the arrival straddles a window edge
+    sends = set(rng.sample(range(0, 4 * tmax // S), min(6, 4 * tmax // S)))
+    sends = {k * Q + 7 for k in sends}
+    for f in faults:
+        for edge in (f["s"], f["e"]):
+            for d in (-lat - 1, -lat, -lat + 1, -1, 0, 1):
+                if edge + d > 0 and rng.random() < 0.5:
+                    sends.add(edge + d)
+    return dict(faults=faults, lat=lat, sends=sorted(sends))
+
+
+def impl_netcrash(c):
+    """Messages sent through a Network (constant-latency links) to a target that crashes / pauses, and to a bystander."""
+    from happysimulator.components.network.link import NetworkLink
+    from happysimulator.components.network.network import Network
+    from happysimulator.core.entity import Entity
+    from happysimulator.core.event import Event
+    from happysimulator.core.simulation import Simulation
+    from happysimulator.core.temporal import Instant
+    from happysimulator.distributions.constant import ConstantLatency
+
+    class Srv(Entity):
+        def __init__(self, name):
+            super().__init__(name)
+            self.got = []
+
+        def handle_event(self, event):
+            self.got.append([event.context["metadata"]["seq"], self.now.nanoseconds])
+
+    class Cli(Entity):
+        def handle_event(self, event):
+            return None
+
+    cli, tgt, by = Cli("client"), Srv("tgt"), Srv("bystander")
+    net = Network(name="net")
+    for srv in (tgt, by):
+        net.add_link(cli, srv, NetworkLink(name=f"to_{srv.name}", latency=ConstantLatency(c["lat"] / S)))
+    fs, _ = build_schedule(c["faults"], lambda f: _crash_fault(f, "tgt"))
+    tmax = max([f["e"] for f in c["faults"]] + c["sends"]) + c["lat"] + S
+    sim = Simulation(end_time=Instant(tmax), entities=[cli, tgt, by, net], fault_schedule=fs)
+    for seq, t in enumerate(c["sends"]):
+        for name in ("tgt", "bystander"):
+            ev = Event(time=Instant(t), event_type="req", target=net)
+            ev.context["metadata"].update({"source": "client", "destination": name, "seq": seq})
+            sim.schedule(ev)
+    sim.run()
+    return dict(tgt=tgt.got, by=by.got)
+
+
+def oracle_netcrash(c, obs):
+    arrive = [[i, t + c["lat"]] for i, t in enumerate(c["sends"])]
+    if obs["by"] != arrive:
+        return [dict(clause="other entities are unaffected", mechanism="bystander-deliveries-differ", got=obs["by"][:6], expected=arrive[:6])]
+    # a message is handled exactly when the target is up at the instant it ARRIVES (an arrival exactly on a window
+    # edge is left undecided: the order against the fault's own event is an engine tie)
+    edges = {x for f in c["faults"] for x in (f["s"], f["e"])}
+    got = {tuple(r) for r in obs["tgt"]}
+    for i, ta in arrive:
+        if ta in edges:
+            continue
+        down = any(covers(f, ta) for f in c["faults"])
+        if down and (i, ta) in got:
+            return [dict(clause="while an entity is crashed or paused it executes nothing: no handler runs", mechanism="handled-while-down", seq=i, arrival=ta)]
+        if not down and (i, ta) not in got:
+            return [dict(clause="processing resumes from the restart time: a message that arrives after the restart is handled, whenever it was sent",
+                         mechanism="arrival-after-restart-lost", seq=i, sent=c["sends"][i], arrival=ta)]
+    extra = [r for r in obs["tgt"] if r not in arrive]
+    if extra:
+        return [dict(clause="each message is delivered once, after the link latency", mechanism="unexpected-delivery", got=extra[:4])]
+    return []
+
+
+FAM_NETCRASH = Family("netcrash", "", "", "", gen_netcrash, impl_netcrash, lambda c, o: "", oracle_netcrash,
+                      nontrivial=lambda c, o: len(o["tgt"]) < len(o["by"]))
+
 # --------------------------------------------------------------------------- families
 FAMILIES = [
     Family("reg", IMPORTS, "ok_reg", "Z * list (Z * Z) * list win * list (Z * list (Z * Z))", gen_reg, impl_reg,
@@ -993,7 +1097,8 @@ def run(ctx):
         st = run_family(ctx, enum_fam, len(cases), search_factor=0)
         st["family"] = "reg(enumerated)"
         stats.append(st)
-    ctx.coverage["oracle_only_families"] = [run_oracle_only(ctx, FAM_RANDPART, ctx.n(40, 400))]
+    ctx.coverage["oracle_only_families"] = [run_oracle_only(ctx, FAM_RANDPART, ctx.n(40, 400)),
+                                            run_oracle_only(ctx, FAM_NETCRASH, ctx.n(60, 600))]
     merge_stats(ctx, stats, "random fault schedules (1-5 faults, endpoints from a pool of <= 6 instants, cancels, permanent crashes); non-trivial = two windows on one target overlap; distinct by JSON of the input")
     ctx.finish_obligations()
     ctx.assumptions += [
